@@ -93,3 +93,20 @@ def NoCacheAbsent (g : Graph) (c : Store) : Prop :=
   ∀ n r, g[n]? = some (.reg r) → r.mode = .noCache → ∀ a l, c.get n a l = none
 
 end CamVerif.C04
+
+namespace CamVerif.C04
+open CamVerif CamVerif.Cache
+
+/-- "The description declares its dependencies" in the wider sense, for the operations of one
+history: every register write an operation can issue is declared by each cachable register it
+may overlap through the writing register, its port, or a FEATURE node through which the
+operation issues the write (`Integer` / `Enumeration` / `Boolean` `set_value`,
+`Command::execute` — each runs `invalidate_cache_by(self)` before forwarding along `pValue` /
+`pValueCopy`), the latter only for registers outside the operation's footprint; raw port writes
+only on ports every cachable register lists.  Decidable (`Cache.declaredForB`). -/
+def DeclaredFor (p : Profile) (g : Graph) (h : List Op) : Prop := declaredForB p g h = true
+
+instance (p : Profile) (g : Graph) (h : List Op) : Decidable (DeclaredFor p g h) := by
+  unfold DeclaredFor; infer_instance
+
+end CamVerif.C04
